@@ -67,7 +67,12 @@ static void wire_check(int hid, const uint8_t* b, int n)
 static int t1_fail = 0; static char t1_info[300]; static uint64_t tf_sent_at[4096]; static int cfg_t1s = 0;
 static void on_write(SimSocket* s, const uint8_t* buf, int n) { static char h[600]; hexs(h, buf, n); logf_("tx h%d %s", hid_of_sock[s->id], h); n_tx++;
     wire_check(hid_of_sock[s->id], buf, n);
-    { int hh = hid_of_sock[s->id]; if (n == 6 && buf[2] == 0x43 && hh >= 0 && hh < 4096 && tf_sent_at[hh] == 0) tf_sent_at[hh] = sim_time(); }
+    /* arm the t1 oracle only when nothing of the peer is in flight: a TESTFR con delivered earlier (still in the socket or half
+     * read) is legitimately taken as the confirmation of this act when the server gets to it */
+    { int hh = hid_of_sock[s->id]; if (n == 6 && buf[2] == 0x43 && hh >= 0 && hh < 4096 && tf_sent_at[hh] == 0) {
+        int inflight = s->in_pos < s->in_len;
+        if (slave) for (int q = 0; q < CONFIG_CS104_MAX_CLIENT_CONNECTIONS; q++) { MasterConnection c2 = slave->masterConnections[q]; if (c2 && c2->isUsed && c2->socket == (Socket) s && c2->recvBufPos != 0) inflight = 1; }
+        if (!inflight) tf_sent_at[hh] = sim_time(); } }
     if (slave && slave->serverMode == CS104_MODE_SINGLE_REDUNDANCY_GROUP && n > 6 && (buf[2] & 1) == 0) evq_seen(hid_of_sock[s->id], buf + 6, n - 6); }
 static int kwin_fail = 0; static char kwin_info[300];
 /* ---- C06 oracle (model-free): a queue created for N entries holds at least the N most recent of equal-size events ---- */
